@@ -87,7 +87,7 @@ theorem alookup_aerase_ne (k k' : κ) (l : List (κ × α)) (h : k' ≠ k) : alo
       simpa [aerase, List.filter_cons, alookup, h2] using ih
     · by_cases h2 : k'' = k'
       · subst h2
-        simp [aerase, List.filter_cons, h1, alookup]
+        simp [aerase, h1, alookup]
       · simpa [aerase, List.filter_cons, h1, alookup, h2] using ih
 
 theorem alookup_none_of_not_mem {k : κ} {l : List (κ × α)} (h : ∀ v, (k, v) ∉ l) : alookup k l = none := by
